@@ -315,7 +315,10 @@ def main(argv=None):
         "seed": seed,
         "level": "other",
         "coverage": {
-            "explanation": getattr(mod, "EXPLANATION", "") + f" Engine: {getattr(mod, 'ENGINE', 'E1')}; every obligation is a validity query decided by z3 {__import__('z3').get_version_string()} over all real values of the symbolic inputs of one configuration; bounds: {getattr(mod, 'BOUNDS', {}).get(a.tier, getattr(mod, 'BOUNDS', ''))}.",
+            "explanation": getattr(mod, "EXPLANATION", "")
+            + f" Engine: {getattr(mod, 'ENGINE', 'E1')}; "
+            + getattr(mod, "EXPLANATION_SUFFIX", f"every obligation is a validity query decided by z3 {__import__('z3').get_version_string()} over all values of the symbolic quantities of one configuration")
+            + f"; bounds: {getattr(mod, 'BOUNDS', {}).get(a.tier, getattr(mod, 'BOUNDS', ''))}.",
             "obligations": n_obl,
             "discharged": n_proved,
             "undecided": n_incon,
@@ -323,7 +326,7 @@ def main(argv=None):
             "violated_new": len(violations),
             "evaluations": len(results),
             "distinct_nontrivial": nontrivial,
-            "rule": "one evaluation = one configuration (entry point x option set x shape) executed symbolically over all feasible paths; non-trivial = at least one obligation reached; configurations are distinct by key",
+            "rule": getattr(mod, "RULE", "one evaluation = one configuration (entry point x option set x shape) executed symbolically over all feasible paths; non-trivial = at least one obligation reached; configurations are distinct by key"),
             "configurations": len(results),
             "paths": total_paths,
             "paths_outside_claim_division_by_zero": n_undefined,
